@@ -53,6 +53,11 @@ def plan(prop):
             obs.append((core, lambda ctx, k=k, c=closed: co.ob_deep_copy(ctx, k, c)))
         for n in (1, 2, 3):
             obs.append((core, lambda ctx, n=n: co.ob_accept_route_state(ctx, n)))
+    if prop in ('C01', 'C06'):
+        for k, n in (((0, 1), (1, 2)) if Q else ((0, 1), (1, 2), (2, 3))):
+            obs.append((core, lambda ctx, k=k, n=n: co.ob_route_level_gates(ctx, k, n)))
+        obs.append((core, lambda ctx: co.ob_route_level_gates(ctx, 2, 1, multi_in_tour=True)))
+        obs.append((core, lambda ctx: co.ob_route_level_gates(ctx, 0, 1, n_places=2)))
     if prop == 'C01':
         for n in (1, 2, 3):
             obs.append((core, lambda ctx, n=n: co.ob_evaluate_with_constraints(ctx, n)))
